@@ -836,6 +836,12 @@ struct TemplateCore {
                             // Bad else
                             storage = tmp;
                             parent_storage.Drop(SizeT{1});
+
+                            // The loops opened inside the dropped <if> go with it.
+                            while ((loop_tag != nullptr) && (loop_tag->Offset > tag.Offset)) {
+                                loop_tag = loop_tag->Parent;
+                            }
+
                             storage->Drop(SizeT{1});
                         }
                     }
